@@ -37,7 +37,7 @@ LEVEL_NOTE = ('trusted: the backend constructors and unique-type cache as the re
 ASSUMPTIONS = ['T ranges over types both FFIs accept from the canonical spelling of a valid tree',
                'the gcc leg declares objects below 2**31 bytes only',
                'function-pointer ctypes are "function types" in the sense of the statement: no gcc leg for them']
-BUDGET = {'quick': 480, 'thorough': 19200}
+BUDGET = {'quick': 160, 'thorough': 9600}
 TIME = {'quick': 12, 'thorough': 800}
 MIN_PER_SHARD = 6
 NTYPES = 24
